@@ -170,6 +170,17 @@ def gen_entries(rng, small_rows=None):
         k = tuple(k)
         if k not in seen:
             keys[i] = k
+    if keys and rng.random() < 0.08:
+        # two keys that differ by one above 2^53: they collide when a float64 key matrix rounds them (F28)
+        base = rng.choice([2 ** 53, 2 ** 60, 2 ** 62, 2 * rng.randint(2 ** 52, 2 ** 62 - 1)])
+        i, j = rng.randrange(len(keys)), rng.randrange(arity)
+        a, b = list(keys[i]), list(keys[i])
+        a[j], b[j] = base + 1, base
+        a, b = tuple(a), tuple(b)
+        if a not in seen and b not in seen:
+            keys[i] = a
+            keys.insert(rng.randint(0, len(keys)), b)
+            ccls = 3
     entries = [(k, gen_rows(rng, small_rows)) for k in keys]
     return entries, common, {"arity": arity, "n": len(entries), "coord_class": ccls, "common_class": kcls}
 
@@ -401,8 +412,8 @@ def classify(e):
 # FORM of the inputs (content unchanged): NumPy-scalar coordinates / common, container type, row-id array layout, file modes.
 # Established on the unchanged tree (2026-10-02): save/load handle every form generated here.  NOT generated:
 #   * row ids as list / int64 / big-endian arrays, io.BytesIO, a file not at offset 0   - save rejects them (documented checks);
-#   * numpy.uint64 coordinates MIXED with signed NumPy scalars or Python ints in one dict when a coordinate exceeds 2^53
-#     - numpy.array(keys) becomes float64 and the coordinates are silently rounded: see notes/indx.md 'FORM FINDINGS' (FF1).
+#   (numpy.uint64 coordinates MIXED with signed NumPy scalars or Python ints above 2^53 used to be excluded: FORM FINDING FF1, repaired
+#    in /repo as F28 = dcf2b47; the form is generated since then, incl. key pairs that collide after float64 rounding.)
 # --------------------------------------------------------------------------
 
 SAVE_MODES = [["wb", -1], ["wb", -1], ["w+b", -1], ["wb", 0], ["r+b", -1], ["ab", -1], ["w+b", 0]]
@@ -428,9 +439,19 @@ def make_form(rng, entries, common):
         keys = [[min(forms.int_dtypes_holding([c]), key=lambda d: (numpy_bits(d), d)) for c in k] for k, _ in entries]
         ktag = "narrowest-per-scalar"
     else:
-        no_u64 = max(coords) > 2 ** 53                                # FF1
-        keys = [[rng.choice([d for d in forms.int_dtypes_holding([c]) if not (no_u64 and d == "uint64")] + ["py"]) for c in k] for k, _ in entries]
+        keys = [[rng.choice(forms.int_dtypes_holding([c]) + ["py"]) for c in k] for k, _ in entries]
         ktag = "mixed"
+    if coords and max(coords) > 2 ** 53 and len(coords) >= 2 and rng.random() < 0.45:
+        # F28 (was FF1): numpy.uint64 scalars above 2^53 next to signed NumPy scalars / Python ints in one key matrix
+        keys = [[("uint64" if rng.random() < 0.75 else rng.choice(["py", "int64"])) if c > 2 ** 53 else
+                 rng.choice([d for d in forms.int_dtypes_holding([c]) if d.startswith("int")] + ["py", "py"]) for c in k] for k, _ in entries]
+        flat = [d for ks in keys for d in ks]
+        if "uint64" not in flat:
+            i, j = next((i, j) for i, (k, _) in enumerate(entries) for j, c in enumerate(k) if c > 2 ** 53)
+            keys[i][j] = "uint64"
+        if all(d == "uint64" for ks in keys for d in ks):
+            keys[-1][-1] = "py" if keys[-1][-1] == "uint64" and len(flat) > 1 and not (len(keys) == 1 and len(keys[0]) == 1) else keys[-1][-1]
+        ktag = "uint64-above-2^53-mixed-with-signed(F28)"
     cform = "py" if rng.random() < 0.6 else rng.choice(forms.int_dtypes_holding([common]))
     return {"keys": keys, "keys_tag": ktag, "common": cform, "container": rng.choice(["dict", "dict", "OrderedDict", "defaultdict"]),
             "rows": [rng.choice(ROW_FORMS) for _ in entries], "save_mode": rng.choice(SAVE_MODES)}
@@ -498,7 +519,7 @@ def form_tags(np, entries, common, form):
             if mat.kind in "iu" and mat.itemsize > fitted:
                 tags.append("key-matrix-wider-than-fitted-word")
             if mat.kind == "f":
-                tags.append("key-matrix-float64(uint64+signed, values <= 2^53)")
+                tags.append("key-dtypes-promote-to-float64" + ("-above-2^53(F28)" if max_word(entries, 0) > 2 ** 53 else ""))
     return tags
 
 
@@ -556,8 +577,7 @@ class Impl:
     def record_forms(self):
         self.ctx.coverage["input_forms"] = dict(sorted(self.form_hist.items()))
         self.ctx.coverage["input_forms_not_generated"] = [
-            "row ids as list / int64 / big-endian array (save refuses: dtype check)", "io.BytesIO (no fileno)", "file not at offset 0 (save's length check)",
-            "numpy.uint64 coordinates mixed with signed NumPy scalars or Python ints when a coordinate exceeds 2^53 (key matrix becomes float64: FORM FINDING FF1, notes/indx.md)"]
+            "row ids as list / int64 / big-endian array (save refuses: dtype check)", "io.BytesIO (no fileno)", "file not at offset 0 (save's length check)"]
 
     def save_partial(self):
         with open(self.path, "rb") as f:
@@ -829,7 +849,8 @@ def run(ctx):
                 "array (judged by the direct oracle only); a case is distinct per (entries in dict order, common[, shape]); every case is saved and loaded for real; the FORM of the "
                 "input varies in ~60%% of the dict cases with the content unchanged (coordinates as NumPy scalars of one / the narrowest / mixed dtypes, common as NumPy scalar, "
                 "dict / OrderedDict / defaultdict, row-id arrays contiguous / column view / read-only / negative-stride-copy, file modes wb w+b r+b ab unbuffered; "
-                "load modes rb r+b unbuffered) - tags counted in coverage.input_forms" % ())
+                "load modes rb r+b unbuffered; numpy.uint64 scalars above 2^53 mixed with signed scalars / Python ints, and key pairs base / base+1 above 2^53 that "
+                "collide under float64 rounding (F28)) - tags counted in coverage.input_forms" % ())
     ctx.trusted = list(core.STD_TRUSTED) + TRUSTED
     pr, proof_ok = prove(ctx, "C10.v")
     build_check(ctx)
